@@ -32,11 +32,11 @@ RULE = (
 FLOORS = {"quick": {"invariant.global": 3000, "shadow": 2500, "traversal": 6000, "copy.isolation": 300, "hook:Composite.add": 2000, "hook:Composite.remove": 500, "hook:ArmiObject.__setstate__": 500,
                     "ancestor.flags": 1000, "ancestor.flags-exactness-decides-above-self": 15, "flags.query-selects-proper-subset": 150, "type.query-by-construction-name": 300,
                     "copy.locator-relinked": 1500, "copy.multi-location-relinked": 600, "copy.reactor-links": 8, "detached.multi-location": 2500,
-                    "core.order": 120, "discharge.move-to-sfp": 10, "sort.order-by-location": 300},
+                    "core.order": 120, "discharge.move-to-sfp": 10, "sort.order-by-location": 300, "query-scratch": 400, "query-scratch/getChildren()": 60, "setChildren.fed-with-edited-getChildren-result": 80},
           "thorough": {"invariant.global": 60000, "shadow": 50000, "traversal": 120000, "copy.isolation": 6000, "hook:Composite.add": 40000, "hook:Composite.remove": 10000, "hook:ArmiObject.__setstate__": 10000,
                        "ancestor.flags": 20000, "ancestor.flags-exactness-decides-above-self": 300, "flags.query-selects-proper-subset": 3000, "type.query-by-construction-name": 5000,
                        "copy.locator-relinked": 12000, "copy.multi-location-relinked": 5000, "copy.reactor-links": 50, "detached.multi-location": 50000,
-                       "core.order": 800, "discharge.move-to-sfp": 70, "sort.order-by-location": 6000}}
+                       "core.order": 800, "discharge.move-to-sfp": 70, "sort.order-by-location": 6000, "query-scratch": 8000, "query-scratch/getChildren()": 1200, "setChildren.fed-with-edited-getChildren-result": 1600}}
 REC = [None]
 
 
@@ -691,14 +691,53 @@ def one_history(rec, rng, fam, nops, case):
         else:
             target = rng.choice(conts) if conts else tree
         kids = list(target)
-        op = rng.choice(["add", "add", "insert", "remove", "remove", "readd", "removeAll", "setChildren", "sort", "deepcopy", "pickle", "special"])
+        op = rng.choice(["add", "add", "insert", "remove", "remove", "readd", "removeAll", "setChildren", "sort", "deepcopy", "pickle", "special", "query-scratch"])
         model = None
         try:
             if isinstance(target, Component):
                 continue
+            if op == "query-scratch":
+                # a caller uses the list a query handed out as its own scratch space (reorders it, appends, pops, clears): the answer
+                # of a query is the caller's, the tree is the object's - nothing about the tree may change, whatever the query
+                queries = [("getChildren()", lambda: target.getChildren()), ("getChildren(deep)", lambda: target.getChildren(deep=True)),
+                           ("getChildren(generationNum=1)", lambda: target.getChildren(generationNum=1)),
+                           ("getChildrenWithFlags(None)", lambda: target.getChildrenWithFlags(None)),
+                           ("getChildren(includeMaterials)", lambda: target.getChildren(includeMaterials=True))]
+                for nm in ("getComponents", "getBlocks", "getAssemblies", "getChildrenOfType"):
+                    if nm != "getChildrenOfType" and callable(getattr(target, nm, None)):
+                        queries.append((nm + "()", getattr(target, nm)))
+                qname, q = rng.choice(queries)
+                try:
+                    got = q()
+                except Exception:
+                    raise SkipOp()
+                if not isinstance(got, list):
+                    raise SkipOp()
+                rec.hit("query-scratch")
+                rec.hit("query-scratch/" + qname)
+                stranger = new_generic(rng, 2)
+                for act in rng.sample(["reverse", "append", "pop", "clear", "shuffle", "insert"], rng.randint(1, 3)):
+                    if act == "reverse":
+                        got.reverse()
+                    elif act == "append":
+                        got.append(stranger)
+                    elif act == "insert":
+                        got.insert(0, stranger)
+                    elif act == "pop" and got:
+                        got.pop(rng.randrange(len(got)))
+                    elif act == "clear":
+                        del got[:]
+                    elif act == "shuffle":
+                        rng.shuffle(got)
+                hist.append("query-scratch(%s)" % qname)
+                if stranger.parent is not None:
+                    rec.violation("query/scratch-use-of-a-result-changed-the-tree", "an object appended to the list returned by %s got parent %r" % (qname, stranger.parent), w)
+                model = ("ordered", kids)
             from armi.reactor.reactors import Core, Reactor
 
-            if type(target).__name__ == "SpentFuelPool":
+            if op == "query-scratch":
+                pass
+            elif type(target).__name__ == "SpentFuelPool":
                 model = pool_op(rec, rng, target, op, hist, detached, roots, w)
             elif isinstance(target, Reactor) or type(target).__name__ in ("ExcoreStructure",):
                 if op in ("deepcopy", "pickle", "add", "readd") and isinstance(target, Reactor) and len(roots) < 3:
@@ -795,7 +834,22 @@ def generic_op(rec, rng, t, op, hist, detached, roots, w, tree):
             for j, c in enumerate(fresh):
                 c.spatialLocator = t.spatialGrid[7 + j, 7, 0]
         items = keep + fresh
-        t.setChildren(items)
+        if rng.random() < .3:
+            # the natural way to re-order or replace: take the list the object hands out, edit it, give it back
+            rec.hit("setChildren.fed-with-edited-getChildren-result")
+            got = t.getChildren()
+            if rng.random() < .7:
+                got.reverse()
+            if got and fresh and rng.random() < .4:
+                got[rng.randrange(len(got))] = fresh[0]  # replace one child through the list
+                fresh = fresh[:1]
+            else:
+                fresh = []
+            items = list(got)
+            keep = [g for g in items if not any(g is f for f in fresh)]
+            t.setChildren(got)
+        else:
+            t.setChildren(items)
         if t.spatialGrid is not None:  # removeAll detached the kept children's locators: re-place them like a builder would
             for j, c in enumerate(keep):
                 c.spatialLocator = t.spatialGrid[-7, j - 6, 0]
